@@ -2,6 +2,7 @@
 
 from __future__ import annotations
 
+import ast
 import re
 
 from .. import terms as tm
@@ -600,6 +601,82 @@ def rule_cemgilform(ctx):
     yield ob(R, f, "beat.cemgil:gaussian", ok, why, node=exps[0].node)
 
 
+def rule_melodypipe(ctx):
+    """Shared with C09.NONINTERF: both melody series go freq_to_voicing -> |f| -> hz2cents(|f|)."""
+    from . import c09
+
+    for o in c09.rule_noninterf(ctx):
+        if o.construct.startswith("melody.to_cent_voicing") or o.construct.startswith("melody.hz2cents") or o.construct.startswith("melody.freq_to_voicing"):
+            o.rule = "C04.MELODYPIPE"
+            yield o
+
+
+def rule_trimform(ctx, R="C04.TRIMFORM"):
+    """segment.detection / deviation: `trim` drops the first and last *boundary* of each annotation
+    (intervals_to_boundaries(intervals)[1:-1]), not the first and last interval."""
+    for q in ("segment.detection", "segment.deviation"):
+        f = ctx.program.func(q, R)
+        s = ctx.S.get(q)
+        n = 0
+        seen = set()
+        for st in s.sites:
+            for v in st.d.values():
+                terms = [v] if isinstance(v, tm.T) else ([z for z in v if isinstance(z, tm.T)] if isinstance(v, (list, tuple)) else [])
+                for t0 in terms:
+                    for x in tm.walk(t0):
+                        if x.op == "call" and call_name(x) == "util.intervals_to_boundaries" and x.id not in seen:
+                            seen.add(x.id)
+        calls = [c for c in s.calls() if c.callee == "util.intervals_to_boundaries"]
+        need(len(calls) >= 2, R, "%s: intervals_to_boundaries calls not found" % q)
+        for c in calls:
+            a = c.args[0]
+            ok = a.op == "param" and "intervals" in a.a[0]
+            n += 1
+            yield ob(R, f, "%s:boundaries-of-whole-annotation@%d" % (q, n), ok, "boundaries are taken from the whole annotation %s" % tm.show(a, 2) if ok else "boundaries are taken from %s: intervals were removed before the conversion, which drops one boundary too many at each end" % tm.show(a, 3), node=c.node)
+        # the trimmed form is B[1:-1] under `trim`
+        trimmed = []
+        for st in s.sites:
+            t0 = st.d.get("term")
+            if t0 is None:
+                continue
+            for x in tm.walk(t0):
+                if x.op == "ite" and x.a[0].op == "param" and x.a[0].a[0] == "trim":
+                    trimmed.append(x)
+        trimmed = list({x.id: x for x in trimmed}.values())
+        need(trimmed, R, "%s: trim alternative not found" % q)
+        for k, x in enumerate(trimmed[:2]):
+            a, b = x.a[1], x.a[2]
+            ok = a.op == "sub" and a.a[0] is b and a.a[1].op == "slice" and tm.show(a.a[1], 2) == "1:-1:" and b.op == "call" and call_name(b) == "util.intervals_to_boundaries"
+            yield ob(R, f, "%s:trim-slice@%d" % (q, k), ok, "with trim the boundaries are B[1:-1], otherwise B" if ok else "trim alternative is %s" % tm.show(x, 4))
+
+
+def rule_contfresh(ctx):
+    """beat.continuity: the `used annotation` and `success` buffers are allocated afresh for every metrical variation
+    (inside the variation loop), so a match made while scoring one variation cannot block a beat in the next."""
+    R = "C04.CONTFRESH"
+    f = ctx.program.func("beat.continuity", R)
+    s = ctx.S.get(f.qual)
+    outer = [lid for lid, (node, it) in s.loops.items() if any(x.op == "call" and call_name(x) == "beat._get_reference_beat_variations" for x in tm.walk(it))]
+    need(len(outer) == 1, R, "continuity: loop over the metrical variations not found")
+    L = outer[0]
+    written = {}
+    for m in s.by_kind("mutate"):
+        if m.how == "setitem" and m.root and any(x[0] == "loop" and x[1] == L for x in m.pc):
+            written.setdefault(m.root, m)
+    need(len(written) >= 2, R, "continuity: work buffers not found")
+    allocs = {}
+    for node in ast.walk(f.node):
+        if isinstance(node, ast.Assign) and len(node.targets) == 1 and isinstance(node.targets[0], ast.Name) and isinstance(node.value, ast.Call) and ast.unparse(node.value.func) in ("np.zeros", "np.ones", "np.empty", "np.full"):
+            allocs.setdefault(node.targets[0].id, []).append(node)
+    loop_node = s.loops[L][0]
+    inside = {id(n) for n in ast.walk(loop_node)}
+    for name, m in sorted(written.items()):
+        if name not in allocs:
+            continue
+        ok = all(id(a) in inside for a in allocs[name])
+        yield ob(R, f, "beat.continuity:fresh-buffer:%s" % name, ok, "%s is allocated inside the loop over metrical variations" % name if ok else "%s is allocated once outside the loop over metrical variations and written inside it: marks left by one variation survive into the next" % name, node=allocs[name][0])
+
+
 RULES = [
     ("C04.DOCDEFAULT", 40, rule_docdefault),
     ("C04.PRNORM", 13, rule_prnorm),
@@ -617,4 +694,7 @@ RULES = [
     ("C04.CHROMAWINDOW", 2, rule_chromawindow),
     ("C04.ALIGNFORM", 3, rule_alignform),
     ("C04.CEMGILFORM", 2, rule_cemgilform),
+    ("C04.TRIMFORM", 8, rule_trimform),
+    ("C04.CONTFRESH", 2, rule_contfresh),
+    ("C04.MELODYPIPE", 1, rule_melodypipe),
 ]
